@@ -2,6 +2,7 @@
 C15 — Price limit rule: accepted prices stay in the band; other markets untouched.
 -/
 import PamsLemmas.SourceTie
+import PamsLemmas.SrcEvents
 import PamsModel.Events
 import Mathlib.Algebra.Order.Field.Basic
 import Mathlib.Tactic.Linarith
@@ -124,5 +125,43 @@ theorem nonvacuous : clip (300 : ℚ) (1/20) 400 = 315 ∧ clip (300 : ℚ) (1/2
 /-- (T) `PriceLimitRule.get_limited_price` in the current sources: `>=` between the absolute changes -/
 theorem source_clip_test :
     Pams.Source.opsOf "PriceLimitRule.get_limited_price" = ["not in", "is", ">="] := by decide
+
+
+/-! ### (T2) the current source text of `PriceLimitRule`, by symbolic execution
+
+`Pams.Src.*` (PamsLemmas/SrcEvents.lean) prove, for *uninterpreted* arithmetic on any linear order,
+that running the translated source of `get_limited_price` / `hooked_before_order` returns the model's
+`clip` / `limitHook`.  Here the arithmetic is instantiated with the field operations, so that the
+theorems above apply to what the source computes. -/
+section SourceCode
+open Pams.Py
+
+/-- the field operations as the operations the translated code uses (`floor` … are not used by this
+event; they are given dummy values and nothing below mentions them) -/
+@[reducible] def fieldOps : NumOpsC K :=
+  { add := (· + ·), sub := (· - ·), mul := (· * ·), div := (· / ·), neg := (- ·), ofInt := fun i => (i : K),
+    floor := fun _ => 0, ceil := fun _ => 0, fmod := fun a _ => a, exp := id, log := id, sqrt := id }
+
+/-- `clip` read with the translated code's arithmetic is `clip` read with the field's -/
+theorem clip_code_arith (p0 r p : K) :
+    @clip K (@pyNumOfOrder K _ fieldOps).toArith p0 r p = clip p0 r p := by
+  unfold clip Arith.abs Arith.max Arith.min
+  have h0 : (@NumOpsC.ofInt K fieldOps 0) = 0 := Int.cast_zero
+  have h1 : (@NumOpsC.ofInt K fieldOps 1) = 1 := Int.cast_one
+  simp only [arith_zero_eq, arith_one_eq, h0, h1, arith_zero, arith_one]
+
+/-- **the price the current source of `get_limited_price` returns for a limit order on a target
+market lies in the band** -/
+theorem code_limited_price_in_band (p r p0 : K) (x : Nat → Int) (y : Nat → Bool) (hp0 : 0 < p0) (hr : 0 ≤ r) :
+    ∃ q : K, @result K (@pyNumOfOrder K _ fieldOps) (@Src.rhoClip K p r p0 x y) Src.evEnv Src.FUEL
+        "PriceLimitRule.get_limited_price" [.ref 3, .ref 1, .ref 5] (Src.plrSt true) = .num q ∧
+      p0 * (1 - r) ≤ q ∧ q ≤ p0 * (1 + r) ∧ (p0 * (1 - r) ≤ p → p ≤ p0 * (1 + r) → q = p) := by
+  refine ⟨clip p0 r p, ?_, (clip_in_band p0 r p hp0 hr).1, (clip_in_band p0 r p hp0 hr).2, ?_⟩
+  · rw [← clip_code_arith]
+    exact @Src.get_limited_price_correct K _ fieldOps p r p0 x y
+  · intro h1 h2
+    exact clip_id_inside p0 r p hp0 hr h1 h2
+
+end SourceCode
 
 end Pams.C15
